@@ -55,7 +55,15 @@ impl DependentRule for SerializableRule {
 
 impl<L: Language> DependentRule for (L, SerializableRuleCore) {
   fn visit_dependency<'a>(&'a self, sorter: &mut TopologicalSort<'a, Self>) -> OrderResult<()> {
-    visit_dependent_rule_ids(&self.1.rule, sorter)
+    visit_dependent_rule_ids(&self.1.rule, sorter)?;
+    // the local `utils` of a global utility can name other global utilities as well:
+    // those must be registered first (a name that is no global utility is ignored by the sorter)
+    if let Some(utils) = &self.1.utils {
+      for util in utils.values() {
+        visit_dependent_rule_ids(util, sorter)?;
+      }
+    }
+    Ok(())
   }
 }
 
